@@ -281,6 +281,13 @@ def cases(ctx):
             continue
         done += 1
         yield "random-deep", t, None
+    # AND/OR(/NOT)-only trees: the distribution step of to_cnf (which assigns node.left/right) does the work
+    for i in range(300 if tier == "quick" else 3000):
+        ops = ["AND", "OR"] if i % 2 else ["AND", "OR", "NOT"]
+        t = g.ctc(["A", "B", "C", "D", "E"], ops, g.rng.choice([3, 4]), 0.2)
+        if len(ops_of(t)) > 14:
+            continue
+        yield "and-or", t, None
     # arithmetic / aggregate / odd terms for the kind predicates
     for i in range(200 if tier == "quick" else 2000):
         yield "arith", rand_arith(g), None
